@@ -46,8 +46,8 @@ Lemma step_counts :
 Proof.
   intros sig_ok sid st m e st' outs H.
   destruct st as [act au us fl gs ex]. destruct e as [res g ko bits mo tk mi kc bn].
-  unfold fail_inv, counted_failures, fail_limit in *.
-  unf H. unfold fail_limit in H. simpl in *.
+  unfold fail_inv, counted_failures, fail_limit, gen_fail_limit in *.
+  unf H. unfold fail_limit, gen_fail_limit in H. simpl in *.
   brk H; inversion H; subst; clear H; simpl; split; try lia; intros [Hi|Hi];
     first [ left; lia | right; reflexivity | right; assumption | right; congruence | lia | congruence ].
 Qed.
@@ -90,7 +90,7 @@ Lemma ten_failures :
 Proof.
   intros sig_ok sid pre post st1 o1 H Hc.
   destruct (run_counts _ _ _ _ _ _ H) as [A B].
-  assert (I : fail_inv st1) by (apply B; left; unfold fail_limit; simpl; lia).
+  assert (I : fail_inv st1) by (apply B; left; unfold fail_limit, gen_fail_limit; simpl; lia).
   assert (Hin : a_active st1 = false).
   { destruct I as [I|I]; [|exact I]. simpl in A. lia. }
   split; [exact Hin|]. split; [apply closed_run; exact Hin|].
@@ -108,8 +108,8 @@ Lemma nine_failures_open :
 Proof.
   intros sig_ok sid st u e st' outs Hact Hau Hg Hf Hu H.
   destruct st as [act au us fl gs ex]. destruct e as [res g ko bits mo tk mi kc bn].
-  simpl in *. subst. unfold fail_limit in *.
-  unf H. unfold fail_limit in H. simpl in H.
+  simpl in *. subst. unfold fail_limit, gen_fail_limit in *.
+  unf H. unfold fail_limit, gen_fail_limit in H. simpl in H.
   change (beq s_connection s_connection) with true in H. simpl in H.
   destruct us as [u0|]; [rewrite Hu in H|]; simpl in H;
     brk H; inversion H; subst; clear H; simpl; try reflexivity; lia.
@@ -119,3 +119,7 @@ Lemma counter_is_wire_failures :
   forall sig_ok sid steps st' outs,
     run sig_ok sid init steps = (st', outs) -> a_fails st' = counted_failures outs.
 Proof. intros sig_ok sid steps st' outs H. exact (proj1 (run_counts _ _ _ _ _ _ H)). Qed.
+
+Lemma generated_constants :
+  fail_limit = 10 /\ disc_svc = 7 /\ disc_nomore = 14.
+Proof. vm_compute. repeat split. Qed.
